@@ -5,7 +5,8 @@ E-fault on the real POSIX driver of HDF5, real SIGKILLed writer processes, the r
       with a counter and SIGKILLs itself before call n, for every n, and after the last one;
   L2  between write system calls: native/killwrite.c (LD_PRELOAD) kills the process before the first / after the n-th write-type system call
       on the target file, for every n; the injector's count is cross-checked against an strace log of the fault-free run.
-Payloads: both write paths (bare SignatureArray; list-backed annotated), small and multi-megabyte, with and without gzip.
+Payloads: both write paths (bare SignatureArray; list-backed annotated), small and multi-megabyte, with and without gzip; and the whole
+'gambit signatures create' command as the writer (whatever it writes to its output path before, during and after parsing the genomes).
 Oracle: load_signatures raises, OR the loaded object equals the collection being written (kmerspec, ids, meta, every signature read back).
 """
 import json
@@ -34,6 +35,7 @@ CONFIGS_QUICK = [
 	dict(path='fast', payload='small', comp='gzip'), dict(path='persig', payload='small', comp='gzip'),
 	dict(path='fast', payload='medium', comp='none'), dict(path='persig', payload='medium', comp='none'),
 ]
+CONFIGS_QUICK.append(dict(path='cli-create', payload='3-fasta-files', comp='none'))
 CONFIGS_THOROUGH = CONFIGS_QUICK + [
 	dict(path='fast', payload='big', comp='none'), dict(path='persig', payload='big', comp='none'),
 	dict(path='fast', payload='big', comp='gzip'), dict(path='persig', payload='big', comp='gzip'),
@@ -95,13 +97,39 @@ def write_kw(cfg):
 
 # ------------------------------------------------------------------------------------------- child
 
+def cli_files(d):
+	"""Three small genomes for the 'gambit signatures create' writer."""
+	paths = []
+	for i, contigs in enumerate((['GGATGACAAAAAAAAAAAGGTT', 'CCATGACCCCCCCCCCCCTT'], ['TTATGACGTGTGTGTGTGTAA'], ['ATGACTTTTTTTTTTTCC' + 'GCGC' * 50])):
+		p = os.path.join(d, f'genome{i}.fasta')
+		fixtures.write_fasta(p, contigs)
+		paths.append(p)
+	return paths
+
+
+def cli_expected(paths):
+	from gambit.kmers import KmerSpec
+	from gambit.seq import SequenceFile
+	from gambit.sigs.calc import calc_file_signature
+	from gambit.sigs.base import SignaturesMeta
+	ks = KmerSpec(11, 'ATGAC')
+	arrs = [calc_file_signature(ks, SequenceFile(p, 'fasta', 'auto')) for p in paths]
+	return ks, arrs, [os.path.basename(p)[:-6] for p in paths], SignaturesMeta()
+
+
 def child_main(argv):
 	cfg = json.loads(argv[0])
 	path = argv[1]
 	level = argv[2]
 	n = int(argv[3])
 	from gambit.sigs.base import dump_signatures
-	obj = payload(cfg)[0]
+	if cfg['path'] == 'cli-create':
+		write = lambda: __import__('gambit.cli', fromlist=['cli']).cli.main(
+			['signatures', 'create', '--no-progress', '-c', '1', '-k', '11', '-p', 'ATGAC', '-o', path] + cfg['files'], standalone_mode=False)
+		obj = None
+	else:
+		obj = payload(cfg)[0]
+		write = lambda: dump_signatures(path, obj, **write_kw(cfg))
 	if level == 'L1':
 		import h5py
 		state = dict(k=0)
@@ -122,11 +150,11 @@ def child_main(argv):
 		wrap(h5py.Group, 'create_dataset')
 		wrap(h5py.Dataset, '__setitem__')
 		wrap(h5py.File, 'close')
-		dump_signatures(path, obj, **write_kw(cfg))
+		write()
 		boundary()                   # after the last call
 		print('BOUNDARIES', state['k'])
 	else:
-		dump_signatures(path, obj, **write_kw(cfg))
+		write()
 		print('DONE')
 
 
@@ -191,10 +219,14 @@ def opens_as_hdf5(path):
 
 def t_crash(cfg, level):
 	sh = Shard()
-	obj, ks, arrs, ids, meta = payload(cfg)
-	expected = (ks, arrs, ids, meta)
 	shim = os.path.join(build.NBUILD, 'libkillwrite.so')
 	with fixtures.workdir('c19') as d:
+		if cfg['path'] == 'cli-create':
+			cfg = dict(cfg, files=cli_files(d))
+			expected = cli_expected(cfg['files'])
+		else:
+			obj, ks, arrs, ids, meta = payload(cfg)
+			expected = (ks, arrs, ids, meta)
 		# fault-free run: count injection points; the complete file must load and be equal
 		p0 = os.path.join(d, 'count.gs')
 		extra = {}
@@ -251,7 +283,7 @@ def t_crash(cfg, level):
 		last = points[-1]
 		for n, killed, size, v, det, oh, err in results:
 			sh.evals += 1
-			case = dict(cfg=cfg, level=level, point=n, of=last)
+			case = dict(cfg={k: v for k, v in cfg.items() if k != 'files'}, level=level, point=n, of=last)
 			if not killed and not (level == 'L1' and n == last and False):
 				raise HarnessError(f'writer was not killed at point {n} of {last} ({cfg}, {level}): rc stderr={err}')
 			if v == 'DIFFERENT':
@@ -267,8 +299,8 @@ def t_crash(cfg, level):
 				if oh[1]:
 					sh.count('rejected_with_marker_visible')
 			sh.outcome([level, v, det])
-		sh.extra = dict(cfg=cfg, level=level, points=len(points), verdicts=[r[3] for r in results], **extra)
-	sh.sample(dict(cfg=cfg, level=level, points=len(points), verdict_by_point=[r[3] for r in results]))
+		sh.extra = dict(cfg={k: v for k, v in cfg.items() if k != 'files'}, level=level, points=len(points), verdicts=[r[3] for r in results], **extra)
+	sh.sample(dict(cfg={k: v for k, v in cfg.items() if k != 'files'}, level=level, points=len(points), verdict_by_point=[r[3] for r in results]))
 	return sh
 
 
@@ -283,9 +315,13 @@ def finalize(agg, tier):
 def replay(case, kind=None):
 	sh = Shard()
 	cfg, level, n = case['cfg'], case['level'], case['point']
-	obj, ks, arrs, ids, meta = payload(cfg)
 	shim = os.path.join(build.NBUILD, 'libkillwrite.so')
 	with fixtures.workdir('c19r') as d:
+		if cfg['path'] == 'cli-create':
+			cfg = dict(cfg, files=cli_files(d))
+			ks, arrs, ids, meta = cli_expected(cfg['files'])
+		else:
+			obj, ks, arrs, ids, meta = payload(cfg)
 		p = os.path.join(d, 'replay.gs')
 		if n == 'complete':
 			run_child(cfg, p, 'none', -1)
